@@ -23,7 +23,7 @@ def firstMinBy (key : α → Nat) : List α → Option α
     | some b => if key b < key a then some b else some a
 
 /-- several *fields* named `x` at the shallowest field depth and no method at that depth or above:
-    an ambiguous selector in Go; up to 43e97a5 `lookupField` took the first of them (finding F05-17) -/
+    an ambiguous selector in Go; up to f4dfaf4 `lookupField` took the first of them (finding F05-17) -/
 def fieldTie (D : Decls) (t : Nat) (x : String) : Bool :=
   match firstMinBy (fun (h : FHit) => h.path.length) (focc D t x) with
   | none => false
